@@ -280,6 +280,7 @@ static void do_delay(int action)
         }
 }
 
+static int canon_biotype(int b);
 static void hook(int ev, const void *a, const void *b, int i, int j, int k)
 {
         long s = atomic_fetch_add(&ev_seq, 1);
@@ -292,7 +293,7 @@ static void hook(int ev, const void *a, const void *b, int i, int j, int k)
                         pthread_mutex_lock(&ev_mu);
                         o += snprintf(params_buf + o, sizeof(params_buf) - o,
                                       "{\"biotype\":%d,\"type\":%d,\"gpo\":%.9g,\"gpe\":%.9g,\"tgpe\":%.9g,\"subm\":[",
-                                      i, j, ap->gpo, ap->gpe, ap->tgpe);
+                                      canon_biotype(i), j, ap->gpo, ap->gpe, ap->tgpe);
                         for (int x = 0; x < 23; x++) {
                                 for (int y = 0; y < 23; y++) {
                                         o += snprintf(params_buf + o, sizeof(params_buf) - o, "%s%.9g",
@@ -451,6 +452,22 @@ static void free_seqset(struct seqset *s)
         free(s->len);
 }
 
+/* The harness speaks in fixed codes (status: 1 unaligned, 2 aligned, 3 final, 4 unknown; kind: 0 protein, 1 nucleotide,
+   2 undefined) and this file translates them with the library's own constants, so that renumbering those constants - an
+   internal matter - cannot change what a check sees. */
+static int canon_status(int a)
+{
+        return a == ALN_STATUS_FINAL ? 3 : a == ALN_STATUS_ALIGNED ? 2 : a == ALN_STATUS_UNALIGNED ? 1 : 4;
+}
+static int canon_biotype(int b)
+{
+        return b == ALN_BIOTYPE_PROTEIN ? 0 : b == ALN_BIOTYPE_DNA ? 1 : 2;
+}
+static int lib_biotype(int c)
+{
+        return c == 0 ? ALN_BIOTYPE_PROTEIN : c == 1 ? ALN_BIOTYPE_DNA : ALN_BIOTYPE_UNDEF;
+}
+
 /* ------------------------------------------------------------------ dump */
 static void dump_msa(struct msa *m, int codes)
 {
@@ -459,14 +476,14 @@ static void dump_msa(struct msa *m, int codes)
                 return;
         }
         fprintf(out, "\"msa\":{\"numseq\":%d,\"aligned\":%d,\"alnlen\":%d,\"biotype\":%d,\"L\":%d,\"seqs\":[", m->numseq,
-                m->aligned, m->alnlen, m->biotype, m->L);
+                canon_status(m->aligned), m->alnlen, canon_biotype(m->biotype), m->L);
         for (int i = 0; i < m->numseq; i++) {
                 struct msa_seq *q = m->sequences[i];
                 fprintf(out, "%s{\"name\":", i ? "," : "");
                 jcstr(q->name, 1 << 20);
                 fprintf(out, ",\"len\":%d,\"rank\":%d,\"seq\":", q->len, q->rank);
-                /* ALN_STATUS_UNKNOWN has the same value as ALN_STATUS_FINAL: only a non-zero
-                   alnlen says that seq[] holds the gapped row */
+                /* (ALN_STATUS_UNKNOWN once had the same value as ALN_STATUS_FINAL: only a non-zero
+                   alnlen says that seq[] holds the gapped row) */
                 if (m->aligned == ALN_STATUS_FINAL && m->alnlen > 0) {
                         jcstr(q->seq, (long)m->alnlen + 8);
                 } else {
@@ -625,7 +642,7 @@ int main(int argc, char **argv)
                         fputs("\"rc\":0", out);
                 } else if (!strcmp(tok[0], "param") && nt >= 6) {
                         struct aln_param *ap = NULL;
-                        int rc = aln_param_init(&ap, atoi(tok[1]), 1, atoi(tok[2]), atof(tok[3]), atof(tok[4]), atof(tok[5]));
+                        int rc = aln_param_init(&ap, lib_biotype(atoi(tok[1])), 1, atoi(tok[2]), atof(tok[3]), atof(tok[4]), atof(tok[5]));
                         fprintf(out, "\"rc\":%d", rc);
                         if (rc == OK && ap) {
                                 fprintf(out, ",\"gpo\":%.9g,\"gpe\":%.9g,\"tgpe\":%.9g,\"subm\":[", ap->gpo, ap->gpe, ap->tgpe);
